@@ -105,12 +105,22 @@ func (stageComp) Corpus() [][]string {
 		{"base ?", "recover 0", "prepare a 3 0", "cut 2 recv a - - 3 b1.2.3 0 3 1.2.3 0", "observe", "recover 0", "settle 0", "observe"},
 		{"base ?", "recover 0", "prepare a 3 0", "recv a - - 3 b1.2.3 0 3 1.2.3 0", "process a 0", "cut 2 finh a 0", "observe", "recover 0", "settle 0", "observe", "status a 0 0"},
 		{"base ?", "recover 0", "prepare a 3 0", "recv a - - 3 b1.2.3 0 3 1.2.3 0", "process a 0", "cut 3 finh a 0", "observe", "recover 0", "settle 0", "observe", "status a 0 0"},
+		// overlapping receptions of two parts of one file: both stay on record
+		{"base ?", "recover 0", "prepare f 4 0", "racerecv f - - 4 b1.2.3.4 0 2 1.2 0 ;; f - - 4 b1.2.3.4 2 3 3 0", "observe", "scan", "received f - - b1.2.3.4 0 0 2 0", "recv f - - 4 b1.2.3.4 3 4 4 0", "settle 0", "observe"},
+		// a new version completes while the validator of the old one is between hash and rename
+		{"base ?", "recover 0", "prepare a 2 0", "recv a - - 2 b1.2 0 2 1.2 0", "prepare a 2 0", "raceproc a 0 ;; a - - 2 b7.8 0 2 7.8 0", "observe", "settle 0", "observe", "status a 0 0"},
+		// a part of a new version arrives while the old one is being put away (logged, not yet moved)
+		{"base ?", "recover 0", "prepare a 2 0", "recv a - - 2 b1.2 0 2 1.2 0", "process a 0", "prepare a 3 0", "racefin a 0 ;; a - - 3 b7.8.9 0 2 7.8 0", "observe", "recv a - - 3 b7.8.9 2 3 9 0", "settle 0", "observe", "status a 0 0"},
 	}
 }
 
 func (stageComp) Generate(r *Rand, tier string, n int) [][]string {
 	var cases [][]string
 	for i := 0; i < n; i++ {
+		if i%5 == 4 {
+			cases = append(cases, genStageRace(r))
+			continue
+		}
 		if i%2 == 1 {
 			cases = append(cases, genStageScenario(r))
 			continue
@@ -393,6 +403,79 @@ func genStageScenario(r *Rand) []string {
 		for _, f := range files {
 			ops = append(ops, fmt.Sprintf("status %s 0 0", esc(f.name)))
 		}
+	}
+	return ops
+}
+
+// genStageRace: two operations overlapping in time — the first is held at a pause point
+// inside its locked region (companion update of a reception, between hash and rename of a
+// validation, between log and move of a delivery) while a reception of another part / of a
+// new version starts.
+func genStageRace(r *Rand) []string {
+	ops := []string{"base ?", "recover 0"}
+	f := genFile(r, []string{"a", "d/b", "x.y"}[r.Intn(3)], "")
+	for len(f.cuts) < 3 {
+		f = genFile(r, f.name, "")
+	}
+	recvArgs := func(f *sfile, i int) string {
+		b, e := f.cuts[i], f.cuts[i+1]
+		return fmt.Sprintf("%s %d %d %s 0", f.meta(), b, e, tokOrDash(f.body[b:e]))
+	}
+	ops = append(ops, fmt.Sprintf("prepare %s %d 0", esc(f.name), len(f.body)))
+	n := len(f.cuts) - 1
+	switch r.Intn(3) {
+	case 0: // overlapping receptions of parts of one file (or of two files)
+		i, j := r.Intn(n), r.Intn(n)
+		if i == j {
+			j = (i + 1) % n
+		}
+		other := f
+		if r.Chance(0.3) {
+			other = genFile(r, "other", "")
+			ops = append(ops, fmt.Sprintf("prepare %s %d 0", esc(other.name), len(other.body)))
+			j = 0
+		}
+		ops = append(ops, "racerecv "+recvArgs(f, i)+" ;; "+recvArgs(other, j), "observe", "scan")
+		for k := 0; k < n; k++ {
+			if k != i && (other != f || k != j) {
+				if r.Chance(0.5) && k+1 < n && other == f && k+1 != i && k+1 != j {
+					ops = append(ops, "racerecv "+recvArgs(f, k)+" ;; "+recvArgs(f, k+1), "observe")
+					k++
+					continue
+				}
+				ops = append(ops, f.recvOp(k))
+			}
+		}
+		ops = append(ops, fmt.Sprintf("received %s %s %s %s 0 %d %d 0", esc(f.name), esc(f.renamed), esc(f.prev), esc(f.hash), f.cuts[i], f.cuts[i+1]))
+	case 1: // new version vs. validation of the old one
+		for k := 0; k < n; k++ {
+			ops = append(ops, f.recvOp(k))
+		}
+		g := genFile(r, f.name, "")
+		g.renamed = f.renamed
+		ops = append(ops, fmt.Sprintf("prepare %s %d 0", esc(g.name), len(g.body)))
+		m := len(g.cuts) - 1
+		for k := 0; k+1 < m; k++ {
+			ops = append(ops, g.recvOp(k))
+		}
+		ops = append(ops, fmt.Sprintf("raceproc %s 0 ;; %s", esc(f.name), recvArgs(g, m-1)), "observe")
+	case 2: // new version vs. delivery of the old one
+		for k := 0; k < n; k++ {
+			ops = append(ops, f.recvOp(k))
+		}
+		ops = append(ops, fmt.Sprintf("process %s 0", esc(f.name)))
+		g := genFile(r, f.name, "")
+		g.renamed = f.renamed
+		ops = append(ops, fmt.Sprintf("prepare %s %d 0", esc(g.name), len(g.body)))
+		m := len(g.cuts) - 1
+		for k := 0; k+1 < m; k++ {
+			ops = append(ops, g.recvOp(k))
+		}
+		ops = append(ops, fmt.Sprintf("racefin %s 0 ;; %s", esc(f.name), recvArgs(g, m-1)), "observe")
+	}
+	ops = append(ops, "settle 0", "observe", "scan", fmt.Sprintf("status %s 0 0", esc(f.name)))
+	if r.Chance(0.3) {
+		ops = append(ops, "crash", "recover 0", "settle 0", "observe", fmt.Sprintf("status %s 0 0", esc(f.name)))
 	}
 	return ops
 }
